@@ -521,6 +521,18 @@ impl Session {
     ///
     /// Return `true` if a new exchange was created, and `false` otherwise.
     pub(crate) fn post_recv(&mut self, rx_header: &PacketHdr) -> Result<bool, Error> {
+        if self.expired
+            && self.get_exch_for_rx(&rx_header.proto).is_none()
+            && rx_header.proto.is_initiator()
+            && MessageMeta::from(&rx_header.proto).is_new_exchange()
+        {
+            // An expired session does not accept new inbound exchanges (see below). Refuse
+            // before the message counter is recorded as received: otherwise the peer's
+            // retransmission of this very message would be acknowledged as a "duplicate",
+            // telling the peer that a message we have refused was delivered.
+            Err(ErrorCode::NoSession)?;
+        }
+
         if !self
             .rx_ctr_state
             .post_recv(rx_header.plain.ctr, self.is_encrypted(), false)
